@@ -385,7 +385,8 @@ class Emitter:
             L.append("#define read(fd,buf,n) vf_sys_read((fd),(buf),(n))")
         if fl.c99:
             L.append("struct yyguts_t;")
-            L.append("static int yyread(char *buf, size_t max_size, struct yyguts_t *yyscanner);")
+            if o.get("input", "yyinput_macro") != "stdio":
+                L.append("static int yyread(char *buf, size_t max_size, struct yyguts_t *yyscanner);")
             if o.get("ledger"):
                 L.append("void *yyalloc(size_t n, struct yyguts_t *yyscanner);")
                 L.append("void *yyrealloc(void *p, size_t n, struct yyguts_t *yyscanner);")
@@ -416,7 +417,8 @@ class Emitter:
             opts.append("reentrant")
         if fl.c99:
             opts.append('emit="c99"')
-            opts.append("noyyread")
+            if o.get("input", "yyinput_macro") != "stdio":
+                opts.append("noyyread")
         if fl.cxx:
             opts.append("c++")
             opts.append('yyclass="VfLexer"')
@@ -622,7 +624,7 @@ class Emitter:
                      "struct yyguts_t *yyg = (struct yyguts_t *) yyscanner; yybegin(s); }")
             L.append("static int vf_start_r(yyscan_t yyscanner) { "
                      "struct yyguts_t *yyg = (struct yyguts_t *) yyscanner; return yystart(); }")
-        if fl.c99:
+        if fl.c99 and o.get("input", "yyinput_macro") != "stdio":
             L.append("static int yyread(char *buf, size_t max_size, struct yyguts_t *yyscanner) {")
             L.append("\treturn vf_read(%s, yyget_in(yyscanner), buf, max_size);" % C)
             L.append("}")
@@ -678,7 +680,7 @@ class Emitter:
         L.append("\tif (sess) { char vf_b[32]; snprintf(vf_b, sizeof vf_b, \"session %d\", sess); "
                  "vf_X(&ctx, vf_b); vf_reset_session(&ctx); ncalls = 0; }")
         if fl.r or fl.c99:
-            L.append("\tif (yylex_init(&yyscanner) != 0) { vf_puts(&ctx, \"F init\\n\"); "
+            L.append("\tif (yylex_init(&yyscanner) != 0) { vf_evi(&ctx, \"F init\", errno); "
                      "vf_finish(&ctx, 41); }")
         for op in d.get("init", [("open", 0)]):
             L += self.xop_c(op, "\t", False)
